@@ -525,7 +525,7 @@ func (fx *FuncExec) applyContract(st *State, instr ssa.Instruction, fc *FuncCont
 		func() {
 			defer func() {
 				if r := recover(); r != nil {
-					if tl, ok := r.(toolLimitErr); ok && (strings.Contains(tl.msg, "unknown identifier") || strings.Contains(tl.msg, "no state labelled") || strings.Contains(tl.msg, "no such range loop")) {
+					if tl, ok := r.(toolLimitErr); ok && !(fc.Trusted && strings.Contains(tl.msg, "unknown identifier")) && (strings.Contains(tl.msg, "unknown identifier") || strings.Contains(tl.msg, "no state labelled") || strings.Contains(tl.msg, "no such range loop")) {
 						return
 					}
 					panic(r)
